@@ -235,6 +235,22 @@ REASONS = {
 SHUTDOWN_LABELS = ('KS', 'RK')
 
 
+TRACE_GROUPS = {
+    'loop': [['control.py', 'run'], ['control.py', 'finishedCheck']],                              # lost wake-ups of the stage loop
+    'finish': [['workflow.py', 'finish'], ['workflow.py', 'stop_engine'], ['workflow.py', 'final_state']],   # subscription vs engine death
+    'postmortem': [['control.py', 'postMortemCheck'], ['control.py', '_restartComponent'], ['workflow.py', 'restart']],
+    'schedule': [['control.py', '_schedule'], ['control.py', '_input_dependencies_satisfied'],
+                 ['control.py', '_comp_get_active_predecessors']],
+    'engine': [['engine.py', 'restart'], ['engine.py', 'kill'], ['engine.py', 'run']],
+}
+TRACE_SCENARIOS = [('pair', {}, {}), ('pair', {'stage0.P1': 'KS'}, {}), ('pair', {'stage0.P1': 'KF'}, {'stage0.P2': 40.0}),
+                   ('chain2', {}, {}), ('chain2', {'stage0.A': 'RS'}, {}), ('chain2', {'stage0.A': 'KF'}, {}),
+                   ('fanin', {'stage0.P1': 'KF', 'stage0.P2': 'RS'}, {}), ('observer', {}, {}), ('observer', {'stage0.A': 'KS'}, {})]
+# quick: these, plus two more (scenario, group) combinations that rotate with VERIF_SEED; thorough: all of them
+TRACE_QUICK = [('pair', {}, 'loop'), ('pair', {'stage0.P1': 'KS'}, 'loop'), ('pair', {'stage0.P1': 'KF'}, 'finish'),
+               ('chain2', {'stage0.A': 'RS'}, 'postmortem')]
+
+
 def make_scenarios(tier):
     """Deterministic list of scenario dicts: {'id', 'wf', 'labels': {node: label}, 'dur': {node: seconds}}"""
     W = workflows()
@@ -273,12 +289,10 @@ def make_scenarios(tier):
     out.append({'wf': 'fanin', 'labels': {'stage0.P1': 'KS'}, 'dur': {'stage0.P2': 40.0}})
     # a restartable exit of X (staged in a later batch than Y) lands while the unrecoverable exit of Y is being handled
     out.append({'wf': 'fanin', 'labels': {'stage0.P1': 'KF', 'stage0.P2': 'RS'}, 'dur': {'stage0.P2': 25.0003}})
-    # line-level preemption inside the controller's main loop and the finished-notification handler (lost wake-ups)
-    for wf, lab in (('pair', {}), ('pair', {'stage0.P1': 'KS'}), ('chain2', {})):
-        out.append({'wf': wf, 'labels': lab, 'dur': {}, 'trace': [['control.py', 'run'], ['control.py', 'finishedCheck']]})
-    # ... and inside ComponentState.finish() of a component that is stopped while its task runs
-    out.append({'wf': 'pair', 'labels': {'stage0.P1': 'KF'}, 'dur': {'stage0.P2': 40.0},
-                'trace': [['workflow.py', 'finish'], ['workflow.py', 'stop_engine'], ['workflow.py', 'final_state']]})
+    # line-level preemption (every source line of the listed functions is a choice point, with a stall alternative)
+    for wf, lab, dur in TRACE_SCENARIOS:
+        for g in TRACE_GROUPS:
+            out.append({'wf': wf, 'labels': lab, 'dur': dur, 'trace': TRACE_GROUPS[g], 'group': g})
     # the experiment is (re)started from a later stage: the components of the skipped stages count as finished
     for lab in ({}, {'stage1.P': 'KS'}, {'stage1.P': 'KF'}, {'stage1.Q': 'KS'}, {'stage1.P': 'RS'}):
         for dur in ({}, {'stage1.Q': 40.0}, {'stage1.P': 40.0}):
@@ -548,7 +562,7 @@ def select_deep(scns, tier, seed):
 
     def find(wf, labels):
         for s in scns:
-            if s['wf'] == wf and s['labels'] == labels and not s['dur']:
+            if s['wf'] == wf and s['labels'] == labels and not s['dur'] and not s.get('trace'):
                 return s
         raise HarnessError('core scenario %s %s missing' % (wf, labels))
 
@@ -558,7 +572,7 @@ def select_deep(scns, tier, seed):
               ('xstage', {}), ('chain2', {'stage0.B': 'KF'}), ('chain2', {'stage0.A': 'XS'}), ('xstage', {'stage0.A': 'KS'})]
     if tier == 'thorough':
         for s in scns:
-            if s not in sel and len(s['labels']) <= 1 and not s['dur']:
+            if s not in sel and len(s['labels']) <= 1 and not s['dur'] and not s.get('trace'):
                 sel.append(s)
     else:
         sel.append(find(*rotate[seed % len(rotate)]))
@@ -592,12 +606,16 @@ def run(ctx, which):
                   ('replica', {'stage0.S0': 'KF', 'stage0.S1': 'RS'}), ('fanin', {'stage0.P1': 'KF', 'stage0.P2': 'XS'})]
     items = []
     nrace = 0
-    traced = [x for x in scns if x.get('trace') and (ctx.tier == 'thorough' or x['wf'] == 'pair')]
+    traced = [x for x in scns if x.get('trace')]
+    if ctx.tier != 'thorough':
+        fixed = [x for x in traced if (x['wf'], x['labels'], x['group']) in TRACE_QUICK]
+        rest = [x for x in traced if x not in fixed and x['group'] != 'schedule']
+        traced = fixed + [rest[(2 * ctx.seed + k) % len(rest)] for k in range(2)]
     races = [(w, l, {}) for w, l in races] + [('late-sibling', {'stage0.Y': 'KF', 'stage0.X': 'RS'}, {'stage0.X': 24.0}),
                                              ('fanin', {'stage0.P1': 'KF', 'stage0.P2': 'RS'}, {'stage0.P2': 25.0003}),
                                              ('xreplica-agg-slow', {'stage0.S0': 'KF'}, {'stage0.S1': 40.0, 'stage0.X': 40.0})]
     for wf, labels, dur in (races if not only else []):
-        sc = [x for x in scns if x['wf'] == wf and x['labels'] == labels and x['dur'] == dur]
+        sc = [x for x in scns if x['wf'] == wf and x['labels'] == labels and x['dur'] == dur and not x.get('trace')]
         if not sc:
             continue
         nrace += 1
